@@ -81,15 +81,19 @@ def env_after_stmt(b, st, env, oc=None):
     dst, rv = st['pl']['l'], st['rv']
     val = None
     d = None
-    if rv['k'] == 'agg' and rv.get('ak') == 'adt' and 'variant' in rv:
+    if rv['k'] == 'use' and rv['op']['k'] == 'const' and 'int' in rv['op'] and b.lty(dst).get('k') == 'bool':
+        val = ('c', bool(rv['op']['int']))
+    elif rv['k'] == 'agg' and rv.get('ak') == 'adt' and 'variant' in rv:
         payload = None
+        if len(rv['ops']) == 1 and rv['ops'][0]['k'] == 'const' and 'int' in rv['ops'][0] and rv['ops'][0].get('s') in ('true', 'false'):
+            payload = ('c', rv['ops'][0]['s'] == 'true')
         if len(rv['ops']) == 1 and rv['ops'][0]['k'] in ('copy', 'move') and not rv['ops'][0]['pl']['p']:
             d = dict(env)
             src = rv['ops'][0]['pl']['l']
             payload = d.get(src)
             if payload is None and st.get('inl') == 'ret':
                 payload = _known_from_outcome(b, src, oc)
-            if payload is not None and payload[0] != 'v':
+            if payload is not None and payload[0] not in ('v', 'c'):
                 payload = None
         val = ('v', rv['vname'], rv['variant'], payload)
     elif rv['k'] == 'use' and rv['op']['k'] in ('copy', 'move'):
@@ -106,13 +110,19 @@ def env_after_stmt(b, st, env, oc=None):
         known = dict(env).get(rv['pl']['l'])
         if known and known[0] == 'v':
             val = ('d', known[2])
+    elif rv['k'] == 'unop' and rv['op'] == 'Not' and rv['a']['k'] in ('copy', 'move') and not rv['a']['pl']['p']:
+        known = dict(env).get(rv['a']['pl']['l'])
+        if known and known[0] == 'c':
+            val = ('c', not known[1])
     if val is None and not any(l == dst for l, _ in env):
         return env
     e = [x for x in env if x[0] != dst]
     if val is not None:
         e.append((dst, val))
-    if len(e) > 10:
-        e = e[-10:]
+    if len(e) > 16:
+        # keep what the user named (flags that are tested much later) before compiler temporaries
+        e.sort(key=lambda x: (0 if b.locals[x[0]].get('user') else 1, x[0]))
+        e = e[:16]
     return tuple(sorted(e))
 
 
@@ -126,7 +136,7 @@ def env_after_call(b, t, env):
         known = dict(env).get(t['args'][0]['pl']['l'])
         if known and known[0] == 'v' and known[1] in BRANCH_OF:
             n, i = BRANCH_OF[known[1]]
-            val = ('v', n, i, None)
+            val = ('v', n, i, known[3] if len(known) > 3 else None)
     if val is None and not any(l == dst for l, _ in env):
         return env
     e = [x for x in env if x[0] != dst]
@@ -141,6 +151,8 @@ def feasible_succs(t, env):
         known = dict(env).get(t['op']['pl']['l'])
         if known and known[0] == 'd':
             return [dict(zip(t['vals'], t['targets'])).get(known[1], t['otherwise'])]
+        if known and known[0] == 'c':
+            return [dict(zip(t['vals'], t['targets'])).get(int(known[1]), t['otherwise'])]
     return None
 
 
@@ -160,62 +172,55 @@ class Explorer:
         self.edges = set()                           # CFG edges some state actually took (infeasible `?` dispatches pruned)
         start = (self.rule.init, ('Unassigned',) * (fr.d(self.start) + 1), ())
         FULL[self.start].add(start)
-        work = collections.deque([self.start])
-        queued = {self.start}
+        work = collections.deque([(self.start, start)])     # only states that are new at a block are (re)processed
         while work:
-            bi = work.popleft()
-            queued.discard(bi)
+            bi, (rs, ocs, env) = work.popleft()
             blk = b.blocks[bi]
             if blk.get('cleanup'):
                 continue
-            out_edges = collections.defaultdict(set)
             t = blk['term']
             rl = fr.r(bi)
             dep = fr.d(bi)
-            for (rs, ocs, env) in list(FULL[bi]):
-                self.visited += 1
-                oc = ocs[-1]
-                for st in blk['stmts']:
-                    rs = self.rule.on_stmt(b, bi, st, rs)
-                    env = env_after_stmt(b, st, env, oc)
-                    oc = outcome_after_stmt(b, st, oc, rl)
-                    if oc == 'Unknown' and env and st['k'] == 'assign' and not st['pl']['p'] and st['pl']['l'] == rl:
-                        known = dict(env).get(rl)
-                        if known and known[0] == 'v' and known[1] in ('Ok', 'Err'):
-                            oc = known[1]
-                if t['k'] == 'return':
-                    self.rule.on_exit(b, bi, rs, oc)
-                    continue
-                oc2 = outcome_after_term(b, t, oc, rl)
-                self.rule.cur_outcome = oc
-                r = self.rule.on_term(b, bi, t, rs)
-                env2 = env_after_call(b, t, env) if t['k'] == 'call' else env
-                only = feasible_succs(t, env)
-                ocs2 = ocs[:-1] + (oc2,)
-                if isinstance(r, list):
-                    edges = [(s2, rs2) for s2, rs2 in r if only is None or s2 in only]
-                else:
-                    edges = [(s2, r) for s2 in (succs(t) if only is None else only)]
-                for s2, rs2 in edges:
-                    d2 = fr.d(s2)
-                    if d2 > dep:
-                        st2 = ocs2 + ('Unassigned',) * (d2 - dep)
-                    elif d2 < dep:
-                        st2 = ocs2[:len(ocs2) - (dep - d2)] or ('Unassigned',)
-                    else:
-                        st2 = ocs2
-                    out_edges[s2].add((rs2, st2, env2))
-                    self.edges.add((bi, s2))
-            for s2, states in out_edges.items():
-                if b.blocks[s2].get('cleanup'):
-                    continue
-                if not states <= FULL[s2]:
-                    FULL[s2] |= states
-                    if s2 not in queued:
-                        queued.add(s2)
-                        work.append(s2)
+            self.visited += 1
             if self.visited > self.max_states:
                 raise RuntimeError('state explosion in ' + b.q)
+            oc = ocs[-1]
+            for st in blk['stmts']:
+                rs = self.rule.on_stmt(b, bi, st, rs)
+                env = env_after_stmt(b, st, env, oc)
+                oc = outcome_after_stmt(b, st, oc, rl)
+                if oc == 'Unknown' and env and st['k'] == 'assign' and not st['pl']['p'] and st['pl']['l'] == rl:
+                    known = dict(env).get(rl)
+                    if known and known[0] == 'v' and known[1] in ('Ok', 'Err'):
+                        oc = known[1]
+            if t['k'] == 'return':
+                self.rule.on_exit(b, bi, rs, oc)
+                continue
+            oc2 = outcome_after_term(b, t, oc, rl)
+            self.rule.cur_outcome = oc
+            r = self.rule.on_term(b, bi, t, rs)
+            env2 = env_after_call(b, t, env) if t['k'] == 'call' else env
+            only = feasible_succs(t, env)
+            ocs2 = ocs[:-1] + (oc2,)
+            if isinstance(r, list):
+                edges = [(s2, rs2) for s2, rs2 in r if only is None or s2 in only]
+            else:
+                edges = [(s2, r) for s2 in (succs(t) if only is None else only)]
+            for s2, rs2 in edges:
+                if b.blocks[s2].get('cleanup'):
+                    continue
+                d2 = fr.d(s2)
+                if d2 > dep:
+                    st2 = ocs2 + ('Unassigned',) * (d2 - dep)
+                elif d2 < dep:
+                    st2 = ocs2[:len(ocs2) - (dep - d2)] or ('Unassigned',)
+                else:
+                    st2 = ocs2
+                self.edges.add((bi, s2))
+                ns = (rs2, st2, env2)
+                if ns not in FULL[s2]:
+                    FULL[s2].add(ns)
+                    work.append((s2, ns))
         IN = collections.defaultdict(set)
         for bi, sts in FULL.items():
             for (rs, ocs, env) in sts:
